@@ -177,11 +177,15 @@ def main():
             sid = os.path.basename(os.path.dirname(d))
             if a.only and sid not in a.only.split(","):
                 continue
+            if json.load(open(d)).get("breaks_property") is False:
+                rows.append((sid, "N/A", "kept for the record; does not break the property as stated (see meta.json)"))
+                print(rows[-1], flush=True)
+                continue
             r = (run_scratch if a.scratch else run)(sid, a.tier, None, a.seeds.split(","))
             caught = any(v["exit"] == 1 for v in r["results"].values())
             rows.append((sid, "CAUGHT" if caught else "MISSED", next((v["failure"] for v in r["results"].values() if v["failure"]), "")))
             print(rows[-1], flush=True)
-        print(f"{sum(1 for r in rows if r[1] == 'CAUGHT')}/{len(rows)} caught")
+        print(f"{sum(1 for r in rows if r[1] == 'CAUGHT')}/{sum(1 for r in rows if r[1] != 'N/A')} caught")
 
 
 if __name__ == "__main__":
